@@ -53,6 +53,20 @@ type wallet struct {
 
 var contract smartcontractinterface.SmartContractInterface
 
+// key material is expensive for 20 signers and does not influence any decision: one set per
+// (wallet slot, t, n) for the whole run
+var walletCache = map[[3]int]*wallet{}
+
+func cachedWallet(slot int, d walletDesc) *wallet {
+	k := [3]int{slot, d.T, d.N}
+	if w, ok := walletCache[k]; ok {
+		return w
+	}
+	w := mkWallet(d)
+	walletCache[k] = w
+	return w
+}
+
 func mkWallet(d walletDesc) *wallet {
 	orig := encryption.NewBLS0ChainScheme()
 	if err := orig.GenerateKeys(); err != nil {
@@ -138,7 +152,7 @@ func run(h hist) result {
 	base := sc.NewMPT()
 	ws := map[int]*wallet{}
 	for i, d := range h.Wallets {
-		ws[i+1] = mkWallet(d)
+		ws[i+1] = cachedWallet(i+1, d)
 	}
 	registered := map[int]bool{}
 	led := map[[2]int]*ledger{}
@@ -153,19 +167,31 @@ func run(h hist) result {
 			for j, s := range w.shares {
 				ids[j] = s.GetID()
 				pks[j] = s.GetPublicKey()
-				toks[j] = fmt.Sprintf("(%d, %d)", 10*o.W+j+1, j+1)
+				toks[j] = fmt.Sprintf("(%d, %d)", 100*o.W+j+1, j+1)
 			}
 			desc := map[string]interface{}{"client_id": w.id, "signature_scheme": "bls0chain", "public_key": w.pk,
 				"signer_threshold_ids": ids, "signer_public_keys": pks, "num_required": w.t}
 			required := w.t
 			keysOK := true
+			if o.Flaw == "toomany" && w.n+ws[o.W%len(ws)+1].n <= multisigsc.MaxSigners {
+				o.Flaw = "t1" // the two wallets together do not exceed the maximum
+			}
 			switch o.Flaw {
 			case "dupid":
 				ids[w.n-1] = ids[0]
-				toks[w.n-1] = fmt.Sprintf("(%d, %d)", 10*o.W+w.n, 1)
+				toks[w.n-1] = fmt.Sprintf("(%d, %d)", 100*o.W+w.n, 1)
 			case "dupkey":
 				pks[w.n-1] = pks[0]
-				toks[w.n-1] = fmt.Sprintf("(%d, %d)", 10*o.W+1, w.n)
+				toks[w.n-1] = fmt.Sprintf("(%d, %d)", 100*o.W+1, w.n)
+			case "toomany": // more than MaxSigners (20): padded with the other wallet's signers under fresh ids
+				other := ws[o.W%len(ws)+1]
+				for j := 0; len(ids) <= multisigsc.MaxSigners && j < other.n; j++ {
+					ids = append(ids, fmt.Sprintf("%x", 100+j))
+					pks = append(pks, other.shares[j].GetPublicKey())
+					toks = append(toks, fmt.Sprintf("(%d, %d)", 100*(o.W%len(ws)+1)+j+1, 100+j))
+				}
+				desc["signer_threshold_ids"] = ids
+				desc["signer_public_keys"] = pks
 			case "t1":
 				desc["num_required"] = 1
 				required = 1
@@ -211,10 +237,10 @@ func run(h hist) result {
 		case "vote":
 			sw := ws[o.SW]
 			sender := ct.ID("multisig stranger", 1)
-			signerTok := 99
+			signerTok := 999
 			if o.S >= 1 && sw != nil && o.S <= sw.n {
 				sender = sw.ids[o.S-1]
-				signerTok = 10*o.SW + o.S
+				signerTok = 100*o.SW + o.S
 			}
 			tr := state.Transfer{ClientID: w.id, ToClientID: recipient(o.To), Amount: currency.Coin(o.Amount)}
 			// signature
@@ -295,8 +321,14 @@ func run(h hist) result {
 				if len(sts) != 0 && false {
 					res.fail("refused-vote-queued-a-transfer")
 				}
-				if countable && recoverOK && !expired {
-					res.fail("valid-vote-refused")
+				if countable && !expired {
+					// a refused vote that had to count; when it was the one reaching the threshold and the
+					// contract could not recover the signature from valid shares the proposal can never execute
+					if !recoverOK {
+						res.fail("threshold-reached-but-signature-recovery-failed")
+					} else {
+						res.fail("valid-vote-refused")
+					}
 				}
 				if expired {
 					res.kinds["vote-refused-expired"]++
@@ -339,6 +371,14 @@ func run(h hist) result {
 					res.fail("executed-by-a-vote-that-must-not-count")
 				}
 				l.voters[signerTok] = true
+				for vt := range l.voters {
+					switch idx := vt % 100; {
+					case idx >= 16:
+						res.kinds["executed-with-a-voter-of-id-10-to-14-hex"]++
+					case idx >= 10:
+						res.kinds["executed-with-a-voter-of-id-a-to-f-hex"]++
+					}
+				}
 				if len(l.voters) < w.t {
 					res.fail("executed-before-threshold-of-distinct-valid-votes")
 				}
@@ -392,16 +432,46 @@ func coqCase(h hist, r result) string {
 }
 
 func genHist(r *vh.Rand) hist {
-	h := hist{Wallets: []walletDesc{{2, 3}, {3, 4}}}
-	if r.Chance(1, 3) {
+	// mostly large wallets: threshold ids are rendered in hex, so signers #10..#15 carry ids "a".."f"
+	// and #16..#20 ids "10".."14"
+	h := hist{Wallets: []walletDesc{{r.Range(2, 4), r.Range(10, 20)}, {r.Range(2, 5), r.Range(16, 20)}}}
+	if r.Chance(1, 5) {
+		h.Wallets = []walletDesc{{2, 3}, {3, 4}}
+	} else if r.Chance(1, 6) {
 		h.Wallets = []walletDesc{{2, 2}, {r.Range(2, 4), r.Range(4, 5)}}
+	}
+	// per proposal a small committee votes (so that repeats and executions are frequent), chosen with
+	// a bias to the high-index signers
+	committee := map[[2]int][]int{}
+	pickCommittee := func(w int) []int {
+		d := h.Wallets[w-1]
+		size := d.T + r.Range(0, 2)
+		if size > d.N {
+			size = d.N
+		}
+		seen := map[int]bool{}
+		var c []int
+		for len(c) < size {
+			s := r.Range(1, d.N)
+			if d.N >= 10 && r.Chance(2, 3) {
+				s = r.Range(10, d.N)
+				if d.N >= 16 && r.Bool() {
+					s = r.Range(16, d.N)
+				}
+			}
+			if !seen[s] {
+				seen[s] = true
+				c = append(c, s)
+			}
+		}
+		return c
 	}
 	now := int64(r.Range(1000, 2000000000))
 	for wi := 1; wi <= 2; wi++ {
 		o := op{K: "reg", W: wi}
 		switch x := r.Intn(12); {
 		case x == 0:
-			o.Flaw = []string{"dupid", "dupkey", "t1", "tbig", "scheme", "badkey", "pk"}[r.Intn(7)]
+			o.Flaw = []string{"dupid", "dupkey", "t1", "tbig", "scheme", "badkey", "pk", "toomany"}[r.Intn(8)]
 			h.Ops = append(h.Ops, o)
 			h.Ops = append(h.Ops, op{K: "reg", W: wi})
 		case x == 1:
@@ -413,7 +483,7 @@ func genHist(r *vh.Rand) hist {
 			h.Ops = append(h.Ops, o)
 		}
 	}
-	n := r.Range(3, 22)
+	n := r.Range(6, 30)
 	type prop struct{ to int; amount uint64; created int64 }
 	props := map[[2]int]*prop{}
 	for i := 0; i < n; i++ {
@@ -437,7 +507,14 @@ func genHist(r *vh.Rand) hist {
 			pr = &prop{to: r.Intn(3), amount: uint64(r.Range(1, 5)), created: now}
 			props[ref] = pr
 		}
-		o := op{K: "vote", W: w, SW: w, S: r.Range(1, h.Wallets[w-1].N), Now: now, P: p, To: pr.to, Amount: pr.amount, Sig: "ok"}
+		if committee[ref] == nil {
+			committee[ref] = pickCommittee(w)
+		}
+		voter := committee[ref][r.Intn(len(committee[ref]))]
+		if r.Chance(1, 8) {
+			voter = r.Range(1, h.Wallets[w-1].N)
+		}
+		o := op{K: "vote", W: w, SW: w, S: voter, Now: now, P: p, To: pr.to, Amount: pr.amount, Sig: "ok"}
 		if r.Chance(1, 6) { // aim at the edge of the week
 			o.Now = pr.created + multisigsc.ExpirationTime + int64(r.Range(-1, 1))
 			if r.Bool() {
@@ -466,6 +543,7 @@ func genHist(r *vh.Rand) hist {
 		h.Ops = append(h.Ops, o)
 		if o.Now >= pr.created+multisigsc.ExpirationTime {
 			delete(props, ref)
+			delete(committee, ref)
 		}
 	}
 	return h
@@ -486,8 +564,9 @@ func main() {
 	sc.Init()
 	contract = multisigsc.NewMultiSigSmartContract()
 	rep := vh.NewReport("multisig", "C21", o)
-	rep.Rule = "histories on the real multisigsc.Execute with real BLS threshold key shares (GenerateThresholdKeyShares): two wallets (2-of-3 and 3-of-4, or 2-of-2 and t-of-4/5), " +
-		"registered by their own client (1 in 6 first tried with a flaw: duplicate id/key, threshold 1 or > n, other scheme, bad key, foreign public key, other client), then 3-22 votes " +
+	rep.Rule = "histories on the real multisigsc.Execute with real BLS threshold key shares (GenerateThresholdKeyShares, one set per wallet shape and run): two wallets, mostly 2..4-of-10..20 and 2..5-of-16..20 " +
+		"(threshold ids are hex: signers #10-#15 have ids a-f, #16-#20 ids 10-14), else 2-of-3 and 3-of-4 or 2-of-2 and t-of-4/5; per proposal a committee of t..t+2 signers biased to the high-index ones votes, " +
+		"registered by their own client (1 in 6 first tried with a flaw: duplicate id/key, threshold 1 or > n, more than 20 signers, other scheme, bad key, foreign public key, other client), then 6-30 votes " +
 		"on 3 proposal ids per wallet by random signers (repeats frequent), 1 in 3 flawed: signature over another amount, made with another share, garbage, stranger, signer of the other wallet, " +
 		"other amount/recipient than the proposal, malformed/oversized/zero-amount/unsigned payload; block times advance, go back, jump half a week, or aim at creation + one week ± 1 s. " +
 		"non-trivial = a proposal executed, a repeat or post-execution vote was seen and a vote was refused; distinct by full history"
@@ -536,10 +615,16 @@ func main() {
 	handle(hist{Wallets: []walletDesc{{2, 3}, {3, 4}}, Ops: []op{{K: "reg", W: 1}, {K: "reg", W: 1}, v(1, 1, 1000, 0), v(1, 1, 1001, 0), v(1, 2, 1002, 0), v(1, 3, 1003, 0),
 		v(1, 1, 2000, 1), v(1, 2, 2000+W-1, 1), v(1, 1, 3000, 2), v(1, 2, 3000+W, 2), v(1, 2, 2999+W, 2),
 		v(1, 3, 1000+W+5, 0), v(1, 1, 1000+W+6, 0)}})
+	// directed: large wallets whose deciding voters have hex ids with letters (#10-#15) and two digits (#16-#20)
+	handle(hist{Wallets: []walletDesc{{3, 20}, {2, 16}}, Ops: []op{{K: "reg", W: 1}, {K: "reg", W: 2},
+		v(1, 16, 1000, 0), v(1, 20, 1001, 0), v(1, 16, 1002, 0), v(1, 10, 1003, 0), v(1, 1, 1004, 0),
+		v(2, 16, 1005, 0), v(2, 1, 1006, 0),
+		v(2, 11, 1007, 1), v(2, 15, 1008, 1),
+		v(1, 12, 1009, 1), v(1, 13, 1010, 1), v(1, 9, 1011, 1), v(1, 17, 1012, 2), v(1, 18, 1013, 2), v(1, 19, 1014, 2)}})
 	rnd := vh.NewRand(o.Seed).Fork() // Fork: NewRand(k) is NewRand(1) shifted by k-1 draws
 	for i := 0; i < o.N(250, 4000); i++ {
 		handle(genHist(rnd))
 	}
-	rep.Note("directed: 2-of-3 wallet: repeat vote, execution, vote after execution, votes at expiry-1 / expiry, re-creation of a pruned proposal id; key shares are freshly generated each run (decisions do not depend on them)")
+	rep.Note("directed: 2-of-3 wallet: repeat vote, execution, vote after execution, votes at expiry-1 / expiry, re-creation of a pruned proposal id; 3-of-20 and 2-of-16 wallets decided by signers #10-#20; every execution's signed transfer is verified with SignedTransfer.VerifySignature(true) under the wallet key; key shares are freshly generated each run (decisions do not depend on them)")
 	finish()
 }
